@@ -2,10 +2,12 @@
 
 _P = 'Snowflake.Props.C08'
 _T = 'Snowflake.Tie.Util'
+_TC = 'Snowflake.Tie.StripAppliedClient'
+_TP = 'Snowflake.Tie.StripAppliedProxy'
 _N = 'Snowflake.Util.C08.'
 
 SPEC = {'id': 'C08',
- 'modules': [_P, _T],
+ 'modules': [_P, _T, _TC, _TP],
  'theorems': [(_P, _N + 'isLocal_spec'),
               (_P, _N + 'isLocal_spec_v4'),
               (_P, _N + 'isLocal_spec_mapped'),
@@ -23,11 +25,27 @@ SPEC = {'id': 'C08',
               (_P, _N + 'stripSdp_untouched'),
               (_P, _N + 'stripSdp_attrs'),
               (_P, _N + 'stripSdp_removes_all'),
-              (_P, _N + 'stripSdp_idempotent')],
+              (_P, _N + 'stripSdp_idempotent'),
+              (_P, _N + 'leaves_eq'),
+              (_P, _N + 'leaves_kept'),
+              (_P, _N + 'leaves_no_local'),
+              (_P, _N + 'leaves_survivor_not_local'),
+              (_P, _N + 'leaves_preserves'),
+              (_P, _N + 'leaves_all_local'),
+              (_P, _N + 'sent_description_spec')],
  'ties': [(_T, 'Snowflake.Tie.Util.isLocal_tie'),
-          (_T, 'Snowflake.Tie.Util.strip_listing')],
- 'harness': [{'pkg': 'common/util', 'test': 'TestVerifC08Util', 'checklinkname': True}],
- 'overlay': {'common/util/zz_verif_c08_test.go': 'c08_util_test.go'},
+          (_T, 'Snowflake.Tie.Util.strip_listing'),
+          (_TC, _TC + '.negotiate_strips_under_flag'),
+          (_TC, _TC + '.negotiate_sends_serialised'),
+          (_TP, _TP + '.sendAnswer_strips_under_flag'),
+          (_TP, _TP + '.sendAnswer_sends_serialised')],
+ 'harness': [{'pkg': 'common/util', 'test': 'TestVerifC08Util', 'checklinkname': True},
+             {'pkg': 'client/lib', 'test': 'TestVerifC08Client$', 'checklinkname': True},
+             {'pkg': 'proxy/lib', 'test': 'TestVerifC08Proxy$', 'checklinkname': True}],
+ 'overlay': {'common/util/zz_verif_c08_test.go': 'c08_util_test.go',
+             'client/lib/zz_verif_c08_test.go': 'c08_clientlib_test.go',
+             'proxy/lib/zz_verif_c08_test.go': 'c08_proxylib_test.go',
+             'common/zzverif/c08sent.go': 'vh/c08sent.go'},
  'rule': 'cases = byte slices through the real util.IsLocal (every first octet x boundary second octets in 4-byte and '
          'IPv4-mapped form, every range boundary +-1 as 32-bit value, every first byte of an IPv6 address, random '
          'slices of length 0..32) and SDP texts through the real StripLocalAddresses (pion-canonical descriptions with '
@@ -35,22 +53,46 @@ SPEC = {'id': 'C08',
          'and around every boundary, .local names, malformed candidate lines, session-level candidates; plus a '
          'malformed stream of mutated / truncated / random inputs). One strip case = one description; the model gets '
          "pion's per-attribute facts (candidate? parses? host? address text) and must predict the surviving "
-         'attribute indices. non-trivial = IsLocal true / at least one candidate removed; distinct = distinct (class, case)',
+         'attribute indices. Sent description (last clause): the real (*BrokerChannel).Negotiate with a recording '
+         'RendezvousMethod on generated offers (all candidates local host / all public / mixed / local addresses only on '
+         'srflx-prflx-relay / no candidates / no media / malformed candidate lines; mutated and non-SDP strings; every '
+         'local kind alone) and the real (*SignalingServer).sendAnswer against an httptest broker with real pion '
+         'PeerConnections (machine interfaces, host candidates rewritten by SetNAT1To1IPs, pion vnet with generated '
+         'static addresses), each for keepLocalAddresses false and true; one case = one call; the model (Util.leaves) '
+         'gets the flag and the same per-attribute facts. non-trivial = IsLocal true / at least one candidate removed '
+         '(or, for the sent description, at least one local host candidate in the input); distinct = distinct (class, case)',
  'level_text': 'isLocal_spec (IsLocal holds exactly on 10/8, 172.16/12, 192.168/16, 100.64/10, 169.254/16 in 4-byte and '
                'IPv4-mapped form and on fc00::/7 otherwise, all boundaries inside the quantifier) is a theorem about a '
                'model that is proved equal to the definition translated from util.IsLocal. The filter loop of '
                'StripLocalAddresses, modelled with its nested guards, is proved to remove exactly the attributes that '
                'are (ICE candidate, parses, type host, address parses to a local / unspecified / loopback IP) and '
                'nothing else, order preserved, idempotent, all other parts of the description untouched - over an '
-               "abstract attribute list where pion's verdict about an attribute is a parameter.",
+               "abstract attribute list where pion's verdict about an attribute is a parameter. Applied before it leaves the "
+               'process: sent_description_spec composes `leaves keep d = if keep then d else strip d` with those theorems '
+               '(no local host candidate is sent unless kept; type, session part, media sections, every other attribute '
+               'preserved in order; leaves_all_local: no fall-back to the unstripped description when every candidate is '
+               'stripped). That Negotiate and sendAnswer compute `leaves` is tied by data-flow facts regenerated from the '
+               'source (every statement mentioning the flag, the description variable, the serialised string, the encoded '
+               'request and the transport is listed: the guard is exactly the negated flag, top level, no else; its body is '
+               'the reassignment to the literal with SDP: util.StripLocalAddresses(x.SDP); that variable alone reaches '
+               'SerializeSessionDescription, whose result alone reaches the poll / answer request and the one '
+               "Exchange / Post) and by running the two real functions against the model and the oracle.",
  'level_note': "partial: pion/sdp's Unmarshal/Marshal and ice.UnmarshalCandidate are not modelled (they enter as the "
                "parameter `view` and the harness's use of pion); that Unmarshal;Marshal is the identity on the rest of "
                "the description and 'no input makes the stripping step panic' are differential evidence only (malformed "
                'stream under recover), not theorems. Session-level a=candidate lines are not filtered by the code (pion '
-               'never emits them); recorded, not judged. Trusted: Lean kernel; translator (IsLocal); the hand-written '
+               'never emits them); recorded, not judged. The sender ties are statement-level facts about Negotiate and sendAnswer '
+               'only: that no other function of client/lib or proxy/lib sends a description to the broker is not an obligation '
+               "(the proxy's NAT probe, checkNATType, posts an unstripped offer to the probe server, not the broker: recorded, "
+               'not judged). On the proxy side pion v3.1.41 cannot gather loopback / unspecified host candidates, so for '
+               'sendAnswer these two kinds rest on the tie and the common/util harness; invalid UTF-8 in a description is '
+               "altered by the JSON transport (C13) and exempt from the 'everything else preserved' oracle. Trusted: Lean kernel; "
+               'translator (IsLocal; statement lists, identifier lists and signatures of the two senders); the hand-written '
                'model of net.ParseIP / IP.To4 / IsUnspecified / IsLoopback (shared with C18).',
  'level_category': 'proof-partial',
  'design_ref': 'DESIGN.md §5.8',
  'trusted': ['pion/sdp v3.0.5 Unmarshal/Marshal and pion/ice v2.2.6 UnmarshalCandidate (not modelled; their verdicts are inputs)',
+             'pion/webrtc v3.1.41 + pion/transport vnet (proxy-side harness: source of real local descriptions)',
+             'messages.DecodeClientPollRequest / DecodeAnswerRequest and util.DeserializeSessionDescription as the recording broker (C12, C13); plain encoding/json as fallback',
              'Go stdlib modelled by hand: net.ParseIP, IP.To4, IP.IsUnspecified, IP.IsLoopback'],
  'assumptions': ['descriptions handed to StripLocalAddresses carry ICE candidates only as media-level attributes (as pion emits them)']}
